@@ -99,6 +99,21 @@ CHECKS.update({
     ),
 })
 
+CHECKS.update({
+    "C12": dict(
+        level="model_checking", engine="vsched",
+        text="Every token sequence of <= 3 (thorough: 4) tokens over a 24-token alphabet and longer programs cut at every token or followed by trailing tokens "
+             "(every way parsing can stop early), on the generic parser and on value Generate, and ~250 (thorough: ~900) pipeline evaluations whose consumer stops "
+             "early (first, top, present, indexWhere, single, ~, multiUse) or whose elements fail, around the switch to parallel execution, are run on the real "
+             "code under the controlled scheduler with ALL interleavings; at every terminal state every vthread must have terminated, and the number of "
+             "transitions executed after the call returned must not grow when the source is doubled.",
+        note=VS + " Quiescence under the scheduler replaces the wall-clock grace period of the property. Findings F12b/F12c live in the pinned iterator "
+             "dependency and are recorded in known_findings.json, matched by narrow classifiers on the start site and parking operation of the leaked goroutines.",
+        technique="stateless model checking of the implementation under a controlled scheduler: exhaustive interleaving exploration with a quiescence (goroutine-leak) oracle",
+        design_ref="DESIGN.md §3.3, §5 C12",
+    ),
+})
+
 NOT_YET = "check not built yet in this session (planned, see DESIGN.md §9); not claimed until its machinery exists"
 
 def main():
